@@ -8,10 +8,19 @@
 
       len=<n> valid=<0|1> [as=<off>:<tags> n=<count> ty=<types> av=<arguments> it=<iterator>]
 
-  (same reader format as engine `osc`: strings as `@<offset>:<bytes>`, blobs as
-  `<len>@<offset>:<bytes>`).  If the model predicts a read outside the block the line is the
-  sanitizer's verdict `crash:asan:heap-buffer-overflow`; a loop that does not terminate is the
-  watchdog's `crash:signal:27`.
+  (strings as `@<offset>:<bytes>`, blobs as `<len>@<offset>:<bytes>`, the empty blob as `0@-:-`:
+  where its data pointer points is not observed).  If the model predicts a read outside the block
+  the line is the sanitizer's verdict `crash:asan:heap-buffer-overflow`; a loop that does not
+  terminate is the watchdog's `crash:signal:27`.
+
+  The *value* of `rtosc_message_length` is printed when the validator accepts, when it exceeds n,
+  and when the first `len` bytes are on their own a message the validator accepts (the size of the
+  message at the head of a chunk); on every other rejected buffer the property only asks for
+  `0 or ≤ n` and the line says `len=ok`.
+
+  The harness runs every line in seven placements (four pointer alignments, a reused arena with
+  three different earlier contents) and prints one line only if all seven agree; the model is a
+  function of the bytes, so it has one answer.
 
       T <bytes-hex>            trigger of known finding C07-K1 (not sent to the implementation):
                                `nc=<0|1>` (NonCanonical), `lax=<0|1>`, `strict=<0|1>`
@@ -42,7 +51,9 @@ def showVal (m : Bytes) (t : UInt8) (v : CVal) : Option String :=
     | _ => none
   | .blob len off =>
     match CVal.view m (.blob len off) with
-    | some (.arg (.blob d)) => some (p ++ toString len.toNat ++ "@" ++ toString off ++ ":" ++ toHex d)
+    | some (.arg (.blob d)) =>
+      if len.toNat = 0 then some (p ++ "0@-:-")
+      else some (p ++ toString len.toNat ++ "@" ++ toString off ++ ":" ++ toHex d)
     | _ => none
 
 def joinOpt (xs : List (Option String)) : Option String :=
@@ -78,7 +89,13 @@ def step (line : String) : String :=
         match V.validMessageP m m.length with
         | .oob => crash
         | .spin => hang
-        | .ok false => s!"len={len} valid=0"
+        | .ok false =>
+          if len > m.length then s!"len={len} valid=0"
+          else if 0 < len ∧ len < m.length then
+            match V.validMessageP (m.take len) len with
+            | .ok true => s!"len={len} valid=0"
+            | _ => "len=ok valid=0"
+          else "len=ok valid=0"
         | .ok true =>
           match readers m with
           | none => crash
